@@ -388,4 +388,53 @@ func VF_C13_L2_QueryConverge() {
 		zzvf.Reach("c13l2-established")
 		zzvf.Assert(copyOf[owner[i].cl.c.cid+"|"+rid] == svc, "query-subscriber-converges-to-the-service-state")
 	}
+	// tail: the first subscription leaves and comes back. If nobody else is
+	// on its normalised query, that query resource is dropped and must be
+	// fetched anew (its alias must not resolve to the dropped resource).
+	if zzvf.ParamOr("resub", 0) == 1 && owner[0].count[rids[0]] == 1 && owner[1].count[rids[1]] == 1 {
+		s0, s1 := owner[0].cl.c.subs[rids[0]], owner[1].cl.c.subs[rids[1]]
+		shared := s0 != nil && s1 != nil && s0.resourceSub == s1.resourceSub
+		owner[0].issue(vfReqKind{method: "unsubscribe." + rids[0], verb: "unsubscribe", rid: rids[0], count: 1})
+		w.settle()
+		gets := 0
+		for _, l := range w.mq.log {
+			if l == "R get.test.model" {
+				gets++
+			}
+		}
+		owner[0].issue(vfReqKind{method: "subscribe." + rids[0], verb: "subscribe", rid: rids[0]})
+		w.settle()
+		gets2 := 0
+		for _, l := range w.mq.log {
+			if l == "R get.test.model" {
+				gets2++
+			}
+		}
+		zzvf.Reach("c13l2-resubscribed")
+		if !shared {
+			zzvf.Assert(gets2 == gets+1, "dropped-query-resource-is-fetched-anew")
+		}
+		for i := 0; i < 6; i++ {
+			pend := w.mq.pending()
+			if len(pend) == 0 {
+				break
+			}
+			q := pend[0]
+			if strings.HasPrefix(q.subject, "access.") {
+				w.mq.answer(q, []byte(`{"result":{"get":true}}`), nil)
+			} else {
+				w.mq.answer(q, []byte(`{"result":{"model":{"string":"`+svc+`"},"query":"`+vfQueryOf(q.payload)+`"}}`), nil)
+			}
+			w.settle()
+		}
+		for _, r := range runs {
+			for _, it := range r.issued {
+				zzvf.Assert(it.responses <= 1, "no-request-answered-twice")
+			}
+			r.observe()
+		}
+		for _, it := range owner[0].issued {
+			zzvf.Assert(it.responses == 1, "resubscription-is-answered")
+		}
+	}
 }
